@@ -212,7 +212,7 @@ VALUE_ERRS = [("The pushed authorization request has expired", 12), ("Got a requ
               ("A request_uri outside the registered", 14), ("Not allowed '%s' algorithm used", 15)]
 EXC_TAG = {"ClientAuthenticationError": 1, "UnknownClient": 2, "UnAuthorizedClient": 3, "MissingSigningKey": 4,
            "NoSuitableSigningKeys": 5, "BadSignature": 6, "ValueError": 7, "ServiceError": 8, "KeyError": 9,
-           "BadSyntax": 10, "AttributeError": 11, "IssuerNotFound": 16}
+           "BadSyntax": 10, "AttributeError": 11, "IssuerNotFound": 16, "MissingRequiredAttribute": 17, "MissingRequiredValue": 18}
 DESC_TAG = [("Request object does not belong to the client", 10), ("request_uri not allowed in a pushed", 11),
             ("Request object signing algorithm not allowed", 1), ("Trying to use unregistered response_type", 2),
             ("RedirectURIError", 3), ("unknown client", 4), ("Missing required attribute", 5),
